@@ -329,6 +329,9 @@ func (c *Ctx) resolveOrderTable(find *ssa.Function, blk *ssa.BasicBlock) ([]stri
 					kind = "suffix"
 				}
 			}
+			if (kind == "path" || kind == "suffix") && !c.nameUnknownGuard(lits) {
+				c.pathFallbackOpen = true
+			}
 		})
 		kinds = append(kinds, kind)
 	}
@@ -440,12 +443,13 @@ func (c *Ctx) ruleImportResolution() {
 			case 0:
 				okAlias = strings.Contains(d, "go/ast.ImportSpec.Name).go/ast.Ident.Name)")
 			case 1:
-				okPath = strings.Contains(d, "call(strings.Trim; field(field(") && strings.Contains(d, "go/ast.ImportSpec.Path).go/ast.BasicLit.Value)")
+				// the import path is a string literal, interpreted or raw: it has to be unquoted, not stripped of `"`
+				okPath = strings.Contains(d, "call(strconv.Unquote; field(field(") && strings.Contains(d, "go/ast.ImportSpec.Path).go/ast.BasicLit.Value)")
 			case 2:
 				okName = strings.Contains(d, "call((*go/types.Package).Name; ")
 			}
 		})
-		c.check(okAlias && okPath && okName, "IMPORT-PKG/FIELDS", "util.ImportMap.Add", P.Pos(add.Pos()), "Alias = spec.Name.Name, FullPath = unquoted spec.Path, PackageName = pkg.Name()", fmt.Sprintf("ImportMap.Add records the wrong data [alias:%v path:%v name:%v]", okAlias, okPath, okName))
+		c.check(okAlias && okPath && okName, "IMPORT-PKG/FIELDS", "util.ImportMap.Add", P.Pos(add.Pos()), "Alias = spec.Name.Name, FullPath = strconv.Unquote(spec.Path.Value), PackageName = pkg.Name()", fmt.Sprintf("ImportMap.Add records the wrong data [alias:%v path(unquoted; a raw-string import path keeps its back quotes otherwise):%v name:%v]", okAlias, okPath, okName))
 	}
 	// RESOLVE-ORDER in Find
 	find := P.LookupFunc("util", "ImportMap.Find")
@@ -489,8 +493,17 @@ func (c *Ctx) ruleImportResolution() {
 				kind = "suffix"
 			}
 		}
+		if (kind == "path" || kind == "suffix") && !c.nameUnknownGuard(P.BlockGuards(b)) {
+			c.pathFallbackOpen = true
+		}
 		rets = append(rets, ret{kind, b})
 	})
+	defer func() {
+		// "IMPL01 iff pkg is not bound under its explicit alias or the imported package's declared name": the two
+		// path-based guesses may stand in for the declared name only where that name is not known
+		c.check(!c.pathFallbackOpen, "RESOLVE-ORDER/PATH-FALLBACK", "util.ImportMap.Find#path-fallback", P.Pos(find.Pos()), "path-based matches only for imports whose declared package name is unknown",
+			"an import whose declared package name is known is also matched by its import path / last path element: `@implements dirname.I` is accepted for a package that declares another name than its directory (missed IMPL01)")
+	}()
 	// table-driven form: one return under `matches(candidate, shortName)` with matches ranging over a package-level
 	// list of predicates (outer loop) and candidate over the entries (inner loop): the order is the order of the list
 	if len(rets) == 1 && rets[0].kind == "?" {
@@ -982,6 +995,27 @@ func (c *Ctx) ruleTypeIdent() {
 			c.fail("TYPE-IDENT", "implements."+name+"#pointer-depth", P.Pos(fn.Pos()), "pointer depth is collapsed to one bit: *T and **T are treated as the same type (missed IMPL03)")
 		}
 	}
+	// (2c) methods are paired by name alone: an unexported method of another package is a different method
+	// (go/types: Id() = package path + name), `seal()` of package impl does not implement `seal()` of package api
+	if !usesGoTypes {
+		usesID := false
+		for _, fn := range P.ModFuncs {
+			if funcPkgPath(fn) != modulePath+"/src/implements" {
+				continue
+			}
+			allInstrs(fn, func(b *ssa.BasicBlock, ins ssa.Instruction) {
+				if call, ok := ins.(*ssa.Call); ok {
+					n := P.calleeName(call.Common())
+					if strings.HasSuffix(n, ").Id") || strings.HasSuffix(n, ").Exported") || n == "go/types.Id" || n == "go/token.IsExported" {
+						usesID = true
+					}
+				}
+			})
+		}
+		if cm := P.LookupFunc("implements", "checkImplementation"); cm != nil && !usesID {
+			c.fail("METHOD-SET", "implements.checkImplementation#unexported-by-name", P.Pos(cm.Pos()), "methods are paired by name only: an unexported method required by an interface of another package is considered implemented by a same-named method of the annotated type's package (missed IMPL03)")
+		}
+	}
 	// (3) method set
 	if em := P.LookupFunc("implements", "extractMethodsFromNamedType"); em != nil && !usesGoTypes {
 		onlyPtr := true
@@ -994,6 +1028,28 @@ func (c *Ctx) ruleTypeIdent() {
 				}
 			}
 		})
+		// (3b) the implementing side is always read as the method set of *T: for an interface-typed T (type T
+		// interface{...}) that set is empty - pointer-to-interface has no methods - so a correct annotation gets IMPL03
+		if n > 0 && onlyPtr {
+			handlesIface := false
+			for _, f := range P.StaticClosure(em) {
+				allInstrs(f, func(b *ssa.BasicBlock, ins ssa.Instruction) {
+					switch x := ins.(type) {
+					case *ssa.Call:
+						if P.calleeName(x.Common()) == "go/types.IsInterface" {
+							handlesIface = true
+						}
+					case *ssa.TypeAssert:
+						if typeStr(x.AssertedType) == "*go/types.Interface" {
+							handlesIface = true
+						}
+					}
+				})
+			}
+			if !handlesIface {
+				c.fail("METHOD-SET", "implements.extractMethodsFromNamedType#interface-typed", P.Pos(em.Pos()), "methods of the annotated type are always taken from the method set of *T; for an interface-typed T that set is empty, so `@implements I` on `type T interface{ ...I's methods... }` gets a false IMPL03")
+			}
+		}
 		if n > 0 && onlyPtr {
 			c.fail("METHOD-SET", "implements.checkImplementation#receiver-kind-filter", P.Pos(em.Pos()), "the value method set is approximated as 'methods of *T declared with a value receiver': methods promoted through an embedded pointer are in T's method set but are filtered out (false IMPL03)")
 		}
@@ -1189,5 +1245,13 @@ func (c *Ctx) pathQualifier(q ssa.Value) bool {
 			}
 		})
 		return ok && n > 0
+	})
+}
+
+// nameUnknownGuard: among the literals, import.PackageName == "" holds.
+func (c *Ctx) nameUnknownGuard(lits []Lit) bool {
+	return hasLit(lits, func(l Lit) bool {
+		other := litOther(l, `const("")`)
+		return other != "" && l.Pos && strings.HasSuffix(other, "util.Import.PackageName)")
 	})
 }
